@@ -114,6 +114,22 @@ class Repo:
         for mi in self.modules.values():
             for ci in mi.classes.values():
                 self.classes[ci.name] = ci
+        # `Schema.__override__("__eq__", eq)`-style registrations executed at import time
+        self.overrides: Dict[str, Tuple[str, str]] = {}
+        for mi in self.modules.values():
+            for st in mi.tree.body:
+                if (isinstance(st, ast.Expr) and isinstance(st.value, ast.Call)
+                        and isinstance(st.value.func, ast.Attribute) and st.value.func.attr == "__override__"
+                        and isinstance(st.value.func.value, ast.Name) and st.value.func.value.id == "Schema"
+                        and len(st.value.args) == 2 and isinstance(st.value.args[1], ast.Name)):
+                    a0 = st.value.args[0]
+                    if isinstance(a0, ast.Constant) and isinstance(a0.value, str):
+                        meth = a0.value
+                    elif isinstance(a0, ast.Attribute) and a0.attr == "__name__" and isinstance(a0.value, ast.Attribute):
+                        meth = a0.value.attr
+                    else:
+                        continue
+                    self.overrides[meth] = (mi.name, st.value.args[1].id)
 
     def _scan_body(self, mi: ModuleInfo, body: List[ast.stmt], is_pkg: bool) -> None:
         for st in body:
